@@ -1,4 +1,6 @@
 """C06 — key exchange with any conformant server ends in a shared auth key and salt."""
+import os
+
 import vlib
 from checks import c07
 
@@ -13,6 +15,17 @@ THEOREMS = [
     "Mtv.Handshake.stage4_authkey_salt",
     "Mtv.Handshake.stage5_dhgen",
     "Mtv.Handshake.hs_agree",
+    # math.SplitPQ inside the model (lean/Mtv/Handshake/SplitPQ.lean)
+    "Mtv.Handshake.mulAddMod_spec",
+    "Mtv.Handshake.rho_step_is_square_plus_q",
+    "Mtv.Handshake.rho_loop_ends",
+    "Mtv.Handshake.splitPQ_sound",
+    "Mtv.Handshake.splitPQ_semiprime",
+    "Mtv.Handshake.splitPQ_no_panic",
+    "Mtv.Handshake.splitPQ_panics_below_two",
+    "Mtv.Handshake.splitPQ_prime_runs",
+    "Mtv.Handshake.splitpq_matches_source",
+    "Mtv.Handshake.hs_agree_splitPQ",
 ]
 RULE = ("one operation = one complete key exchange of the real client (NewMTProto + CreateConnection over loopback "
         "TCP) with an independent conformant server (own TL, IGE over crypto/aes, SHA-1, RSA-2048 private-key "
@@ -53,13 +66,75 @@ RULE = ("one operation = one complete key exchange of the real client (NewMTProt
         "and 254 bytes; the server opens EVERY encrypted message with its own envelope code, which enforces the "
         "description's 0..15 bytes of padding after the declared length, and compares it with the request's "
         "serialisation written by hand. "
+        "c06.env = the exchange in other environments than a test naturally provides: the conformant server's transport "
+        "frames (4-byte length + packet) handed to the connection in pieces with pauses - cut after byte 1 / 2 / 3 "
+        "(inside the length), 4 (between length and packet), 5 / 12 / 24 / 25 (inside the packet), the halves, the "
+        "last 1 / 4 / 21 bytes late, pieces of 1 (one byte at a time) / 3 / 7 / 64 / 512 bytes, a long pause - one "
+        "exchange each in every run; and the client configured with Config.AuthKeyFile (the library's own file "
+        "storage) in different kinds of places: under os.TempDir(), on another filesystem than os.TempDir(), eight "
+        "fresh directories down, a bare and a sub/ relative path with a fresh working directory, and TMPDIR naming "
+        "a missing directory / a regular file / a directory on another filesystem / unset - one exchange each, the "
+        "application having created the session file's directory and nothing else; `stored=` is what an independent "
+        "reader finds in the file, and the library's own loader must read the same back; plus drawn combinations "
+        "(quick 4, thorough 120) with drawn cut points and piece sizes. "
+        "The factoring of pq on its own: c06.split = the guard of handshake.go + the REAL math.SplitPQ (on a goroutine "
+        "with a 60 s watchdog - on a prime it never returns) on products of two primes: all products of the primes "
+        "up to 13 (equal ones included), the repository's vectors, the largest product below 2^64, squares of the "
+        "largest prime below 2^32 / of 2^31-1 / of 65537 / next to 2^63, products around 2^63 and 2^31, 2 x / 3 x / "
+        "65537 x the largest prime, drawn products of primes of drawn sizes 2..32 bits (quick 8, thorough 160), and "
+        "what the guard refuses (0..3, primes up to the largest below 2^64); judged from the number alone: p1*p2 = "
+        "pq, p1 <= p2, both prime. The Lean driver answers with the pair its MODEL of SplitPQ finds with a fixed "
+        "draw stream (splitPQ_semiprime: the pair cannot depend on the draws). c06.splitraw = the call without the "
+        "guard on 0 and 1 (division by zero, as proved of the model). c06.mulmod = the inner double-and-add loop "
+        "(transcribed statement by statement; the repository exposes it only inside SplitPQ) against the model's "
+        "mulAddMod and (c + a*b) mod n, operands up to 64 bits (quick 34, thorough 3010). "
         "distinct = distinct operation lines; each is compared with the Lean client machine run against the Lean "
         "ServerSpec (request bodies, keys, salts, hash, flags, stores on both sides) and judged from the server's "
         "own values")
 
 
+GEN_LEAN = os.path.join(vlib.LEAN, "Mtv", "Gen", "SplitPQFacts.lean")
+
+
+def regenerate(ctx):
+    """gen_hook: what C07 regenerates (registry, check skeleton of makeAuthKey) and the statement skeleton of
+    math.SplitPQ (go/parser over internal/math/math.go of the working tree the harness was built against). A failing
+    extraction removes the generated file, so that the proof build fails instead of silently using stale facts."""
+    ok = c07.regenerate(ctx)
+    exe = os.path.join(vlib.BUILD, "c06facts")
+    with vlib.Lock("go-c06facts"):
+        rc, out = vlib.run(["go", "build", "-o", exe, "./cmd/c06facts"], cwd=vlib.HARNESS,
+                           env=vlib.go_env(ctx.repo), timeout=600)
+        if rc == 0:
+            rc, out = vlib.run([exe, "-repo", ctx.repo, "-lean", GEN_LEAN], timeout=120)
+    ctx.obligation("c06facts: statement skeleton of math.SplitPQ (imports and package variables it refers to, "
+                   "signature, every statement with its nesting) extracted from %s (go/parser)" % ctx.repo,
+                   rc == 0, out[-600:])
+    if rc != 0:
+        try:
+            os.remove(GEN_LEAN)
+        except OSError:
+            pass
+    return ok and rc == 0
+
+
+# what C07 says about the factoring parameter is replaced here: C06 has the model of SplitPQ
+SPLIT_ASSUMPTION = (
+    "math.SplitPQ is MODELLED (lean/Mtv/Handshake/SplitPQ.lean, statement by statement; tied to the source by "
+    "splitpq_matches_source and by c06.split / c06.splitraw / c06.mulmod on every run) and proved partially correct "
+    "for every round count, draw stream and pq (splitPQ_sound), unique on products of two primes (splitPQ_semiprime), "
+    "free of division by zero from 2 on (splitPQ_no_panic). ASSUMED in hs_agree_splitPQ: that the call RETURNS within "
+    "the rounds given (`splitPQ fuel draws (p*q) = .ok r` - termination of a randomised walk, true with probability 1 "
+    "over the draws, false for some draw streams, e.g. on pq = 4; observed on the real function by c06.split with a 60 s "
+    "watchdog); that big.Int.ProbablyPrime(0) does not take p*q for a prime (math/big: exact below 2^64); math/big "
+    "itself (Add/Sub/Cmp/And/Rsh/Mod/Div/GCD = the Nat operations, Mod by zero = run-time panic); that math/rand "
+    "delivers SOME values (the theorems hold for all); a 64-bit int for `lim`. hs_agree itself keeps the factoring as "
+    "a parameter `split` with the hypothesis split (p*q) = some (p, q); the client machine has no 'still factoring' "
+    "state, so guardedSplit maps a call that has not returned to none (guardedSplit_none says exactly when)")
+
+
 def run(ctx):
-    ctx.assumptions += c07.ASSUMPTIONS[:4] + [
+    ctx.assumptions += [c07.ASSUMPTIONS[0], SPLIT_ASSUMPTION] + c07.ASSUMPTIONS[2:4] + [
         "RSA is a parameter: hs_agree assumes 2^2047 <= n < 2^2048 and (m^e)^d % n = m for every m < n (RSA "
         "correctness for the key pair), nothing else; the cut-point search of DecryptMessageWithTempKeys is correct "
         "under the cryptographic hypothesis NoLongerCollision (C05), assumed for the server's answer and the client's "
@@ -72,8 +147,9 @@ def run(ctx):
         "hs_agree excludes draws b with g^b mod dh_prime in {0, 1, dh_prime-1}: a conformant server must refuse such "
         "g_b (the description's range check); this client does not redraw",
     ]
-    return vlib.generic_check(ctx, SUB, MODULES, THEOREMS, RULE, gen_hook=c07.regenerate,
+    return vlib.generic_check(ctx, SUB, MODULES, THEOREMS, RULE, gen_hook=regenerate,
                               extra_trusted=("harness/cmd/c07facts (go/parser extractor of the check skeleton)",
+                                             "harness/cmd/c06facts (go/parser extractor of the statement skeleton of math.SplitPQ)",
                                              "harness/cmd/regdump (reflection dump of the TL registry)"))
 
 
